@@ -135,8 +135,16 @@ CLAIMS = {
             "bounded by 4^d/2 (the 2^20 fuel covers 4^19/2); for IEEE arithmetic PROVED for n control points with finite "
             "coordinates within +-2^E and n*2^E <= 2^22 (C01_T01g_ieee_bounded, C01_T01g_curve_bounded: binary32 error "
             "analysis through Flocq; e.g. <= 1024 control points within +-4096, <= 32 within +-131072, <= 16 anywhere in the "
-            "parser's range), PARTIAL beyond (more "
-            "control points far from the origin: no failing segment found, probes/T01g_search); "
+            "parser's range), and LIFTED TO WHOLE FILES: the parser stores only control points within +-2^18 of the slider head, for "
+            "ALL line sequences (C01_parsed_control_points_bounded), the curve calls the Bezier routine per segment "
+            "(C01_T01g_curve_bounded_segments), hence every file whose slider segments have <= 16 control points, or "
+            "max_seg_len x 2^E <= 2^22 with the slider inside +-2^E of its head, decodes to a VALUE - never out of fuel, never a "
+            "panic - from lines, from any reader state and from bytes, also as a decidable condition on the input lines that "
+            "parses no number (C01_decode_terminates_segments[_graded|_lines], C01_decode_bytes_terminates_segments[_lines]; all "
+            "2828 slider lines of the bundled maps meet the graded condition, largest product 58 x 2^10); every fuelled loop of "
+            "the decode path is listed with the lemma that closes it, only the Bezier subdivision is left; composed with the "
+            "encoder (C01_decode_encode_terminates_segments). PARTIAL beyond (a single segment of more than 16 "
+            "control points far from the head: no failing segment found, probes/T01g_search); "
             "refuted without a coordinate bound (finding D25: an infinite or overflowing control point never becomes flat, "
             "and from 2^22 on there are finite segments that are their own child, C01_T01g_ieee_refuted_finite - "
             "public API only, the parser bounds coordinates to +-2^18 relative to the slider). Node count = repeats + 2 <= 9001; NonZeroU32::new_unchecked "
